@@ -290,9 +290,11 @@ def _classify(case, loc, window, flip):
         return "final products only", "unlocalised"
     site = f"{loc['kind']}:{loc['method']}"
     method = legal.parse_mc(case["pipe"][0])["matching_cost_method"]
-    # "rounding-level": within a few float32 ulps of the values compared (1e-5 for values up to 10, 1e-6 relative
-    # above: an aggregated census 5x5 cost of 20 carries float32 running sums of about a thousand)
-    tiny = max(TINY, 1e-6 * float(loc.get("scale") or 1.0))
+    # "rounding-level": 1e-5 relative to the values compared (at least 1e-5). cbca divides differences of float32
+    # running sums accumulated over the whole frame (about rows x cols x cost, e.g. 2e4 for a 30x44 frame of costs
+    # around 15, one ulp of which is 2e-3): observed differences reach 1e-5 for aggregated costs of about 10, while
+    # two genuinely different averages of half-integer costs over at most 25 x 25 cells differ by 8e-4 or more
+    tiny = max(TINY, 1e-5 * float(loc.get("scale") or 1.0))
     if (not flip and loc["kind"] == "validation" and loc["var"] == "validity_mask" and window[1] % 2 == 1
             and loc["entering"] is not None and loc["entering"].size
             and bool(np.all(np.abs(np.mod(loc["entering"].astype(np.float64), 1.0)) == 0.5))):
